@@ -682,8 +682,12 @@ def o6(ctx):
             dflt = calls[0].d['kwargs'].get('default')
             if dflt is None and len(calls[0].d['args']) > 1:
                 dflt = calls[0].d['args'][1]
-            if not (dflt is not None and dflt.is_const and isinstance(dflt.val, tuple) and len(dflt.val) == 2
-                    and dflt.val[0] == 0 and dflt.val[1] == 0):
+            dv = None
+            if dflt is not None and dflt.is_const and isinstance(dflt.val, tuple):
+                dv = list(dflt.val)
+            elif dflt is not None and dflt.k == 'tuple' and all(x.is_const for x in dflt.a[0]):
+                dv = [x.val for x in dflt.a[0]]
+            if not (dv is not None and len(dv) == 2 and dv[0] == 0 and dv[1] == 0):
                 ok, wit = False, fmt_trace(p.trace)
             # which orderings of count versus 0 are consistent with the branch decisions of this path
             zero = None
